@@ -277,10 +277,6 @@ def walk_up_hazard(cwd, tlist, rlist, intended_roots, files):
             for ra, rc in rlist:
                 if not ra and tg[:len(rc)] == rc:
                     return True
-        else:
-            # strategy 3 also captures a cwd-based target through an ancestor of another root when strategy 2 finds nothing;
-            # with the own root given as a path strategy 2 always finds it first
-            pass
     return False
 
 
@@ -337,13 +333,9 @@ def gen_case(rng, tier):
         t.extra_dirs.append(rng.choice(t.roots) + ["empty_dir"])
     case = {"files": t.files, "dirs": t.extra_dirs, "calls": [], "meta": {"planted": kind if malformed else "none"}}
     dirs = [list(d) for d in all_dirs(case)]
-    files_by_root = {}
-    for f in t.files:
-        for r in t.roots:
-            if f["p"][:len(r)] == r and len(f["p"]) > len(r):
-                files_by_root.setdefault(tuple(r), []).append(f)   # nested roots: a file belongs to every root around it
 
-    def distractors(cwd, involved_roots, target_paths):
+    def distractors():
+        """roots that do not exist / names that occur nowhere: they must not change anything"""
         out = []
         for _ in range(rng.choice([0, 0, 1, 2])):
             k = rng.random()
@@ -391,7 +383,7 @@ def gen_case(rng, tier):
             cwds.append(rng.choice(other))
         for _ in range(rng.choice([3, 4, 5, 6])):
             cwd = rng.choice(cwds)
-            tlist, rlist, ok = [], [], True
+            tlist, rlist = [], []
             for r in roots_inv:
                 mine = [fp for fp, rr in pairs if rr == r]
                 name_relative = False
@@ -400,7 +392,7 @@ def gen_case(rng, tier):
                     if rel_to(cwd, fp):
                         forms.append([False, rel_to(cwd, fp)])
                     nr = [False, r[-1:] + fp[len(r):]]           # begins with the root's name
-                    if nr not in forms and cwd[:len(r)] != r:     # (not from inside the root: see the report)
+                    if nr not in forms:
                         forms.append(nr)
                     tg = rng.choice(forms)
                     if tg == nr and cwd != r[:-1]:
@@ -418,7 +410,7 @@ def gen_case(rng, tier):
                     # a bare name is looked for in the components of the target as it was given
                     rforms.append([False, [nm]])
                 rlist.append(rng.choice(rforms))
-            rlist += distractors(cwd, roots_inv, None)
+            rlist += distractors()
             rng.shuffle(rlist)
             rng.shuffle(tlist)
             if rng.random() < 0.1:
